@@ -429,6 +429,7 @@ def _heartbeats(run, F, PV, D, V2):
         g = A.cfg(m, V2)
         for r in [n for n in A.own_nodes(m) if isinstance(n, ast.Return) and isinstance(n.value, ast.Tuple) and len(n.value.elts) == 2]:
             d = r.value.elts[1]
+            run.require(isinstance(d, ast.Dict), f"{mname}: the reply data is not written as a dict display (idiom not understood)")
             flat = {}
             for k, v in zip(d.keys, d.values):
                 if isinstance(v, ast.Dict):
